@@ -7,7 +7,7 @@ import fw
 import timedlib as T
 from timedlib import SUB
 
-LEAN_TARGETS = ["RxProofs.C17"]
+LEAN_TARGETS = ["RxProofs.C17", "RxProofs.C02Timed"]
 DRIVER = "drv_timed"
 DRIVER_ROOT = "Timed"
 PROCS = 1  # one case costs ~2 ms: forking a pool is slower than running them in-process
@@ -28,6 +28,22 @@ THEOREMS = [
     "C17.towm_fires_exactly",
     "C17.towm_never_after_terminal",
     "C17.towm_terminal_sets_done",
+    "C17.timeout_sim_bridge",
+    "C17.take_with_time_sim_bridge",
+    "C17.skip_with_time_sim_bridge",
+    "C02Timed.owned_step",
+    "C02Timed.terminal_releases_all",
+    "C02Timed.dispose_cancels_timers",
+    "C02Timed.released_is_silent",
+    "C02Timed.debounce_held_laws",
+    "C02Timed.timeout_held_laws",
+    "C02Timed.take_with_time_held_laws",
+    "C02Timed.skip_with_time_held_laws",
+    "C02Timed.initial_owned",
+    "C02Timed.machine_done_silent",
+    "C02Timed.twm_terminal_sets_done",
+    "C02Timed.dwm_terminal_sets_done",
+    "C02Timed.delay_drained_no_timer",
     "C17.AsIs.tlwt_boundary_counter",
     "C17.AsIs.tlwt_no_age_rule",
 ]
@@ -313,4 +329,4 @@ def shrink(case):
 
 
 LEVEL_TEXT = ("Lean theorems, for all timelines with non-decreasing times, all durations and element types: take/skip(_until)_with_time pass exactly the notifications before / after the boundary timer in scheduler order; take_last_with_time (REPAIRED code) emits at completion exactly the elements with age < d and skip_last_with_time exactly those with age >= d (and each as soon as it is d old), by a rule that mentions only the element's own age; timeout (id / switched / Serial timer, relative or absolute due time) switches exactly when the deadline precedes the next source notification (also stated by gaps: at last+d after the first gap > d, never if all gaps <= d) and never after a source terminal; timeout_with_mapper as a trace machine equals the current-timer rule on every event interleaving. The as-is take_last_with_time is shown (decide) to keep or drop an element exactly d old depending on an unrelated arrival. Tied to the code by differential runs on TestScheduler (hot and cold sources, elements before/at/after every boundary, absolute times in the past) and by oracles written from the property text.")
-LEVEL_NOTE = ('Defect (DESIGN §6 #4): on the pinned tree take_last_with_time uses `>=` on arrival and `<=` at completion; the model is of the code after fixes/C17_take_last_with_time_boundary.patch (`<` at completion, consistent with skip_last_with_time; repo suite passes). Against the unfixed tree the check reports VIOLATION with a replay. timeout_with_mapper: the global event order is driver glue (stable merge), validated by the correspondence only. Trusted: correspondence harness, generators, the inlined scheduler tie rule.')
+LEVEL_NOTE = ('Defect (DESIGN §6 #4): on the pinned tree take_last_with_time uses `>=` on arrival and `<=` at completion; the model is of the code after fixes/C17_take_last_with_time_boundary.patch (`<` at completion, consistent with skip_last_with_time; repo suite passes). Against the unfixed tree the check reports VIOLATION with a replay. timeout_with_mapper: the global event order is driver glue (stable merge), validated by the correspondence only. The (due, seq) tie rule is derived for timeout and take/skip(_until)_with_time on hot sources (*_sim_bridge: scheduler simulation = two-stream run; also run by the driver on every hot case); for cold sources (first timer armed before the source is subscribed) it is still the inlined comparison, validated by the correspondence. RxProofs/C02Timed.lean (audited here) gives the release theorems used by C02/C03. Trusted: correspondence harness, generators.')
